@@ -73,6 +73,32 @@ fn check_slice(what: &str, ctx: &str, base: &[u8], got: Option<&[u8]>, want: Opt
     }
 }
 
+/// Notes of a typed view against the reference walk of the designated range [a, b): the same number
+/// of notes, and every name / descriptor slice at the walker's offsets (by pointer).
+fn check_notes(what: &str, ctx: &str, img: &[u8], a: usize, b: usize, align: usize, order: rl::Order, notes: &[Note<'_>], out: &mut Outcome) {
+    let data = &img[a..b];
+    let refn = walk_notes(order, align, data);
+    if refn.len() != notes.len() {
+        out.violate(format!("wrong-content:{what}"), format!("{ctx}: {} notes, reference walk of the designated range gives {}", notes.len(), refn.len()));
+    }
+    for (n, r) in notes.iter().zip(refn.iter()) {
+        let (name, desc): (Option<&[u8]>, Option<&[u8]>) = match n {
+            Note::Unknown(x) => (Some(x.name), Some(x.desc)),
+            Note::GnuBuildId(x) => (None, Some(x.0)),
+            _ => (None, None),
+        };
+        for (s, rr) in [(name, r.name), (desc, r.desc)] {
+            if let Some(s) = s {
+                if s.len() != rr.1 - rr.0 {
+                    out.violate(format!("wrong-length:{what} name/descriptor"), format!("{ctx}: {} bytes instead of {}", s.len(), rr.1 - rr.0));
+                } else if !s.is_empty() && ptr_off(img, s) != a + rr.0 {
+                    out.violate("wrong-place:note name/descriptor", format!("{ctx}: at buffer offset {} instead of {}", ptr_off(img, s), a + rr.0));
+                }
+            }
+        }
+    }
+}
+
 /// Caller-supplied headers over the geometry alphabet, all views.
 struct Crafted;
 impl Crafted {
@@ -215,26 +241,7 @@ impl Space for Crafted {
                 out.transitions += 1;
                 let data = &img[a..b];
                 match subject(|| f.section_data_as_notes(&h).ok().map(|it| it.take(data.len() + 2).collect::<Vec<_>>())) {
-                    Ok(Some(notes)) => {
-                        let refn = walk_notes(enc.order, align as usize, data);
-                        if refn.len() != notes.len() {
-                            out.violate("wrong-content:ElfBytes::section_data_as_notes", format!("{ctx}: {} notes, reference walk of the designated range gives {}", notes.len(), refn.len()));
-                        }
-                        for (n, r) in notes.iter().zip(refn.iter()) {
-                            let (name, desc): (Option<&[u8]>, Option<&[u8]>) = match n {
-                                Note::Unknown(x) => (Some(x.name), Some(x.desc)),
-                                Note::GnuBuildId(x) => (None, Some(x.0)),
-                                _ => (None, None),
-                            };
-                            for (s, rr) in [(name, r.name), (desc, r.desc)] {
-                                if let Some(s) = s {
-                                    if !s.is_empty() && ptr_off(&img, s) != a + rr.0 {
-                                        out.violate("wrong-place:note name/descriptor", format!("{ctx}: at buffer offset {} instead of {}", ptr_off(&img, s), a + rr.0));
-                                    }
-                                }
-                            }
-                        }
-                    }
+                    Ok(Some(notes)) => check_notes("ElfBytes::section_data_as_notes", &ctx, &img, a, b, align as usize, enc.order, &notes, out),
                     Ok(None) => out.violate("range-fits-but-Err:ElfBytes::section_data_as_notes", ctx.clone()),
                     Err(m) => out.violate(format!("panic:ElfBytes::section_data_as_notes in {}", panic_site(&m)), m),
                 }
@@ -321,6 +328,16 @@ impl Space for InPlace {
                         }
                     }
                 }
+                if h.sh_type == abi::SHT_NOTE {
+                    if let Some((a, b)) = want {
+                        out.transitions += 1;
+                        match subject(|| f.section_data_as_notes(&h).ok().map(|it| it.take(b - a + 2).collect::<Vec<_>>())) {
+                            Ok(Some(notes)) => check_notes("ElfBytes::section_data_as_notes", &ctx, img, a, b, h.sh_addralign as usize, sk.enc.order, &notes, out),
+                            Ok(None) => out.violate("range-fits-but-Err:ElfBytes::section_data_as_notes", ctx.clone()),
+                            Err(m) => out.violate(format!("panic:ElfBytes::section_data_as_notes in {}", panic_site(&m)), m),
+                        }
+                    }
+                }
                 if h.sh_type == abi::SHT_STRTAB {
                     if let (Some((a, b)), Ok(st)) = (want, f.section_data_as_strtab(&h)) {
                         for o in 0..(b - a) {
@@ -347,9 +364,103 @@ impl Space for InPlace {
                         check_slice("ElfBytes::segment_data", &format!("{} segment {}", sk.name, j), img, r, want, out);
                     }
                 }
+                if p.p_type == abi::PT_NOTE {
+                    if let Some((a, b)) = want {
+                        let ctx = format!("{} segment {}", sk.name, j);
+                        out.transitions += 1;
+                        match subject(|| f.segment_data_as_notes(&p).ok().map(|it| it.take(b - a + 2).collect::<Vec<_>>())) {
+                            Ok(Some(notes)) => check_notes("ElfBytes::segment_data_as_notes", &ctx, img, a, b, p.p_align as usize, sk.enc.order, &notes, out),
+                            Ok(None) => out.violate("range-fits-but-Err:ElfBytes::segment_data_as_notes", ctx),
+                            Err(m) => out.violate(format!("panic:ElfBytes::segment_data_as_notes in {}", panic_site(&m)), m),
+                        }
+                    }
+                }
             }
         }
         out.nontrivial(dig.get() ^ idx);
+    }
+}
+
+/// The section-name string table is the range of the section the header (or, with the
+/// SHN_XINDEX escape, the full 32-bit shdr[0].sh_link) designates - or an error.
+struct NameTable;
+const NT_LINKS: [u64; 12] = [0, 1, 2, 3, 4, 5, 0xffff, 0x1_0000, 0x1_0003, 0x2_0003, 0xffff_0003, 0xffff_ffff];
+impl Space for NameTable {
+    fn name(&self) -> String {
+        "section_headers_with_strtab on the extended-numbering shapes with e_shstrndx in {as built, SHN_XINDEX} x shdr[0].sh_link in {0..5, 0xffff, 2^16, 2^16+3, 2^17+3, 0xffff0003, 2^32-1}: the table handed out lies exactly on the designated section's range (by pointer), an undesignated one is never handed out; 4 encodings".into()
+    }
+    fn size(&self) -> u64 {
+        4 * 2 * NT_LINKS.len() as u64
+    }
+    fn describe(&self, idx: u64) -> Value {
+        let d = unmix(idx, &[4, 2, NT_LINKS.len() as u64]);
+        json!({"encoding": ENCS[d[0] as usize].name(), "e_shstrndx": if d[1] == 0 { "index of .shstrtab" } else { "SHN_XINDEX" }, "shdr0_sh_link": format!("{:#x}", NT_LINKS[d[2] as usize])})
+    }
+    fn run(&self, idx: u64, out: &mut Outcome) {
+        let d = unmix(idx, &[4, 2, NT_LINKS.len() as u64]);
+        let sk = &extnum_shapes()[d[0] as usize];
+        let enc = sk.enc;
+        let mut img = sk.bytes.clone();
+        let site = |r: &str| sk.sites.iter().find(|s| s.role == r).unwrap_or_else(|| panic!("no site {r}")).clone();
+        let link = NT_LINKS[d[2] as usize];
+        let built_ndx = site("shdr[0].sh_link").valid;
+        let st = site("shdr[0].sh_link");
+        rl::put(&mut img, st.off, st.width, enc.order, link);
+        if d[1] == 0 {
+            let e = site("ehdr.e_shstrndx");
+            rl::put(&mut img, e.off, e.width, enc.order, built_ndx);
+        }
+        // reference: which section is designated
+        let nsec = site("shdr[0].sh_size").valid;
+        let ndx = if d[1] == 0 { built_ndx } else { link };
+        let shoff = rl::get(&img, site("ehdr.e_shoff").off, site("ehdr.e_shoff").width, enc.order) as usize;
+        let shl = layout(Kind::Shdr, enc.class);
+        let designated: Option<(usize, usize)> = if ndx < nsec {
+            let v = rl::decode(Kind::Shdr, enc, &img, shoff + ndx as usize * shl.size);
+            let fi = |n: &str| rl::field_index(Kind::Shdr, enc.class, n);
+            let (o, z) = (v[fi("sh_offset")] as usize, v[fi("sh_size")] as usize);
+            if o + z <= img.len() {
+                Some((o, o + z))
+            } else {
+                None
+            }
+        } else {
+            None
+        };
+        out.transitions += 1;
+        let ctx = format!("{} e_shstrndx {} shdr[0].sh_link {:#x} ({} sections)", enc.name(), if d[1] == 0 { "direct" } else { "SHN_XINDEX" }, link, nsec);
+        let r = subject(|| {
+            let f = ElfBytes::<AnyEndian>::minimal_parse(&img).ok()?;
+            let (_, st) = f.section_headers_with_strtab().ok()?;
+            let st = st?;
+            // locate the table: the first non-empty string it hands out
+            for o in 0..64usize {
+                if let Ok(s) = st.get_raw(o) {
+                    if !s.is_empty() {
+                        return Some(Some(ptr_off(&img, s) - o));
+                    }
+                }
+            }
+            Some(None)
+        });
+        match r {
+            Err(m) => out.violate(format!("panic:ElfBytes::section_headers_with_strtab in {}", panic_site(&m)), m),
+            Ok(None) => {
+                // error / no table: fine unless a fitting section is designated (ndx 0 = SHN_UNDEF means none)
+                if let (Some((a, b)), true) = (designated, ndx != 0) {
+                    let v = rl::decode(Kind::Shdr, enc, &img, shoff + ndx as usize * shl.size);
+                    if v[rl::field_index(Kind::Shdr, enc.class, "sh_type")] == abi::SHT_STRTAB as u64 {
+                        out.violate("range-fits-but-Err:section name table", format!("{ctx}: no table although section {ndx} [{a}, {b}) is a string table inside the file"));
+                    }
+                }
+            }
+            Ok(Some(None)) => {}
+            Ok(Some(Some(start))) => match designated {
+                Some((a, _)) if a == start => out.nontrivial(idx ^ 0x5712),
+                Some((a, b)) => out.violate("wrong-place:section name table", format!("{ctx}: the table handed out starts at buffer offset {start}, the designated section is [{a}, {b})")),
+                None => out.violate("undesignated:section name table", format!("{ctx}: a string table at buffer offset {start} is handed out although no existing section is designated")),
+            },
+        }
     }
 }
 
@@ -366,7 +477,7 @@ pub fn build(_tier: Tier) -> CheckDef {
         level: "model_checking",
         rule: "complete enumeration of the range-geometry alphabet (every combination of offset, size, type and flags, incl. zero-length, EOF-touching, one-past-EOF and overflowing ranges) for caller-supplied headers, and every real section/segment of the generated and sample files; each returned slice is compared by POINTER and length with the reference-computed designated range (never by content only). non-trivial = geometry whose range fits".into(),
         assumptions: vec!["relocation and dynamic views expose no slice; their entries are compared with a reference decode of the designated range".into()],
-        spaces: vec![Box::new(Crafted), Box::new(InPlace { sks })],
+        spaces: vec![Box::new(Crafted), Box::new(InPlace { sks }), Box::new(NameTable)],
         abort_is_violation: false,
         hang_is_violation: false,
         exhaustive: true,
